@@ -30,7 +30,7 @@ func init() {
 			Rules: map[string]string{"C12-R1": "swap+clear in one write-locked section", "C12-R2": "query path read-holds the lock",
 				"C12-R3": "generalised refresh discipline (F9)", "C12-R4": "no per-request data in shared caches (F8)", "C12-R5": "custom engine staleness gate", "C12-R9": "caches store clones and hand out clones (shared with C07-R4)",
 				"C12-R10": "custom rules received from the backend are stamped with the time of reception (time.Now), the only stamp that is newer than every cached engine",
-				"C12-R6": "collision checks", "C12-R7": "cache key dependence and injective packing", "C12-R8": "one result cache per engine"},
+				"C12-R6":  "collision checks", "C12-R7": "cache key dependence and injective packing", "C12-R8": "one result cache per engine"},
 		}})
 }
 
